@@ -156,16 +156,24 @@ impl<'a> PreparedAccessor<'a> {
         }
         let mut values: Vec<i64> = Vec::with_capacity(end - start);
         let mut valid: Vec<bool> = Vec::with_capacity(end - start);
+        let mut any_valid = false;
         for i in start..end {
             if let Some(v) = column.get_i64_at(i) {
                 values.push(v);
                 valid.push(true);
+                any_valid = true;
             } else {
                 values.push(0);
                 valid.push(false);
             }
         }
-        Some((values, valid))
+        // Like the u64 and f64 variants: a column without a single i64 value (an f64 block) must
+        // not claim the i64 fast path, otherwise every row of a float column is rejected.
+        if any_valid {
+            Some((values, valid))
+        } else {
+            None
+        }
     }
 
     /// Builds a dense u64 buffer and a parallel validity mask for a field.
